@@ -105,7 +105,16 @@ pub fn build_group(c: &Case) -> Group {
         let mut t = Tmpl { path: path.to_string(), ..Default::default() };
         for (k, on) in spec.named.iter().enumerate() {
             if *on {
-                t.named.push((format!("t{}", k + 1), vec![marker(&format!("<{}:t{}>", path, k + 1))]));
+                let mut body = vec![marker(&format!("<{}:t{}>", path, k + 1))];
+                // an include inside a template definition is a dependency of the file as well (forward only: no cycles)
+                if let Some(r) = spec.includes.get(k) {
+                    let later: Vec<usize> = present.iter().copied().filter(|j| *j > i).collect();
+                    if !later.is_empty() && r.suffix {
+                        let target = later[(r.target + k) % later.len()];
+                        body.push(Node::Include(spell(path, PATHS[target], r.style)));
+                    }
+                }
+                t.named.push((format!("t{}", k + 1), body));
             }
         }
         for r in &spec.imports {
@@ -327,6 +336,9 @@ pub fn eval_case(w: &mut Worker, c: &Case) -> Result<Outcome, String> {
             for t in &g.files {
                 let mut incs = vec![];
                 all_includes(&t.body, &mut incs);
+                for (_, b) in &t.named {
+                    all_includes(b, &mut incs);
+                }
                 let expected: Vec<String> = t.imports.iter().chain(incs.iter()).map(|r| resolve_ref(&t.path, wxml::strip_suffix(r, ".wxml"))).collect();
                 let actual: Vec<String> = match group.direct_dependencies(&t.path) {
                     Ok(it) => it.collect(),
@@ -561,7 +573,7 @@ pub fn run(tier: Tier, seed: u64, findings: &Findings) -> i32 {
     let check = C13;
     let mut report = super::run_regress(&check, &cfg, findings);
     exhaustive(&mut report, findings);
-    let cases = tier.pick(6000, 200_000);
+    let cases = tier.pick(3000, 120_000);
     report.merge(engine::run_generated(&check, &cfg, cases, 4, 16, findings, 0));
     engine::finish(
         Finish {
